@@ -198,6 +198,47 @@ def make_case(ctx, idx):
     return dict(id=idx, mode=mode, dom=node.describe(), pvars=pvars, rows=rows, k=k)
 
 
+def make_rowinter_case(ctx, idx):
+    """FIXED share of every run: an intersection with an operand whose Translate / Rotate depends on a parameter, asked with
+    2-3 DIFFERENT rows, built so that the intersection is not empty (the partner disc contains every position of the moved
+    shape) — alone or nested in a cut / union / outer motion / product.  (The situation of seeded/C18-f-m2.)"""
+    rng = ctx.rng
+    A = Gen(rng, params=[]).prim2("x")
+    pts = leaf_points(A, {}, rng, 0)
+    if rng.random() < 0.6:
+        a, b = (dy(rng, 1, 3, 4) * rng.choice([-1, 1]), dy(rng, 1, 3, 4) * rng.choice([-1, 1]))
+        moved = Node("translate", "x", [PF([("*", c(a), v("t")), ("+", c(dy(rng, -1, 1)), ("*", c(b), v("t")))])], [A])
+        off = moved.pfs[0].eval({"t": [Fr(0)]})
+        allp = [[p_[0] + off[0] + a * tt, p_[1] + off[1] + b * tt] for p_ in pts for tt in (0, 1)]
+        cx = (min(p_[0] for p_ in allp) + max(p_[0] for p_ in allp)) / 2
+        cy = (min(p_[1] for p_ in allp) + max(p_[1] for p_ in allp)) / 2
+        R = max(abs(p_[0] - cx) + abs(p_[1] - cy) for p_ in allp) + Fr(1, 2)
+    else:
+        co, si = rng.choice([(Fr(3, 5), Fr(4, 5)), (Fr(-4, 5), Fr(3, 5)), (Fr(5, 13), Fr(12, 13))])
+        al = dy(rng, 1, 2, 4) * rng.choice([-1, 1])
+        piv = [dy(rng, -1, 1), dy(rng, -1, 1)]
+        a_ = ("+", c(co), ("*", c(al), v("t")))
+        moved = Node("rotate", "x", [PF([a_, c(-si), c(si), a_]), PF([c(piv[0]), c(piv[1])])], [A])
+        cx, cy = piv
+        R = (abs(co) + abs(al) + abs(si)) * max(abs(p_[0] - cx) + abs(p_[1] - cy) for p_ in pts) + Fr(1, 2)
+    B = Node("circle", "x", [PF([c(cx), c(cy)]), PF([c(R)])])
+    node = Node("inter", None, [], [moved, B] if rng.random() < 0.5 else [B, moved])
+    wrap = rng.choice(["none", "none", "none", "cut", "union", "translate", "prod"])
+    far = Node("circle", "x", [PF([c(cx + 3 * R), c(cy)]), PF([c(Fr(1, 2))])])
+    if wrap == "cut":
+        node = Node("cut", None, [], [node, far])
+    elif wrap == "union":
+        node = Node("union", None, [], [far, node] if rng.random() < 0.5 else [node, far])
+    elif wrap == "translate":
+        node = Node("translate", "x", [PF([("*", c(Fr(1, 2)), v("t")), c(Fr(1))])], [node])
+    elif wrap == "prod":
+        y = Node("interval", "y", [PF([c(Fr(0))]), PF([c(Fr(3, 2))])])
+        node = Node("prod", None, [], [node, y] if rng.random() < 0.5 else [y, node])
+    k = rng.choice([2, 3])
+    ts = rng.sample(range(0, 17), k)
+    return dict(id=idx, mode="rowinter", dom=node.describe(), pvars=["t"], rows=[{"t": [str(Fr(t_, 16))]} for t_ in ts], k=k)
+
+
 def make_depprod_case(ctx, idx):
     """dependent product asked for its box without the partner's data (known-finding stream)"""
     rng = ctx.rng
@@ -423,6 +464,7 @@ def run(ctx, rep, cases=None):
     if cases is None:
         cases = [make_case(ctx, i) for i in range(ctx.scale(280, 4000))]
         cases += [make_depprod_case(ctx, 100000 + i) for i in range(ctx.scale(6, 40))]
+        cases += [make_rowinter_case(ctx, 150000 + i) for i in range(ctx.scale(16, 160))]
         extras = True
     else:
         extras = False
